@@ -258,13 +258,15 @@ namespace pika::when_all_vector_detail {
                 {
 #if defined(PIKA_HAVE_STDEXEC)
                     if constexpr (pika::execution::experimental::sends_stopped<Sender>)
-#else
-                    if constexpr (pika::execution::experimental::sender_traits<Sender>::sends_done)
-#endif
                     {
                         pika::execution::experimental::set_stopped(std::move(receiver));
                     }
                     else { PIKA_UNREACHABLE; }
+#else
+                    // without stdexec the sends_done trait of pika's own adaptors is always false
+                    // although they forward set_stopped: a received stopped signal is always forwarded
+                    pika::execution::experimental::set_stopped(std::move(receiver));
+#endif
                 }
             }
         }
